@@ -516,13 +516,36 @@ pub fn run(tier: Tier) -> Report {
         }
         rep.extra("not_coded_tail_sequences", json!(n_tail));
     }
+    // scale: one-row and one-column pictures of every lattice dimension (powers of two and their
+    // neighbours, 3*2^k, primes, the largest values a 16-bit size field can carry), I, P, I in one reader
+    {
+        let dims = dim_lattice();
+        let sizes: Vec<(u16, u16)> = dims.iter().flat_map(|&d| [(d, 1u16), (1u16, d)]).collect();
+        let calls: u64 = sizes
+            .par_iter()
+            .map(|&(w, h)| {
+                let mk = |ptype: u8, tr: u8, content: usize| -> Letter {
+                    let hd = hdr(Mode::Sorenson, w, h, ptype, tr, (tr % 3) as usize, 0);
+                    let pic = Pic { mbs: body(&hd, content, tr as usize), hdr: hd };
+                    let bw = encode(&pic);
+                    let pad = (8 - bw.nbits % 8) % 8;
+                    Letter { name: format!("{}{}x{} pad{}", ["I", "P", "D"][ptype as usize], w, h, pad), bytes: bw.bytes, pad, pic }
+                };
+                let (i0, p1, i2) = (mk(0, 1, 0), mk(1, 2, 1), mk(0, 3, 1));
+                run_seq(&rep, Mode::Sorenson, None, &[&i0, &p1, &i2])
+            })
+            .sum();
+        rep.add_transitions(calls);
+        rep.add_states(sizes.len() as u64);
+        rep.extra("one_row_and_one_column_sequences_over_the_dimension_lattice", json!(sizes.len()));
+    }
     rep.extra("sequences", json!(nseq));
     rep.extra("letters_by_padding_bits", json!(pads));
     if pads.iter().any(|p| *p == 0) {
         rep.violation("C15/machinery-padding-coverage", format!("picture alphabet does not realise every padding length 0..7: {pads:?}"), json!({"kind": "machinery"}));
     }
     rep.set_rule(&format!(
-        "all sequences of 1..={maxlen} pictures (thorough: also of four pictures over every second letter) from an alphabet of type {{I,P,D}} x 8 PEI counts (every padding length 0..7) x bodies (last macroblock coded with AC data / not coded / with MCBPC stuffing codewords) per size, from a fresh decoder and after an I picture, in Sorenson and standard mode: decoder A reads the concatenation from one reader, decoder B gets one reader per picture; A, B and the reference decoder must agree after every call and A's reader must end within 8 bits of the end; plus pictures ending in each kind of final syntax element (every TCOEF form incl. each escape width, INTRADC, COD, each MVD shape, after DQUANT, position 63) at every padding length 0..7, alone / before / after another picture; standard-mode pictures that stop early before the next start code (whenever their own reader accepts them the shared reader must too, with the same picture, and the next picture decodes); 80-macroblock pictures ending in every number of not-coded macroblocks, followed by another picture; non-trivial = sequences of two or more pictures"
+        "all sequences of 1..={maxlen} pictures (thorough: also of four pictures over every second letter) from an alphabet of type {{I,P,D}} x 8 PEI counts (every padding length 0..7) x bodies (last macroblock coded with AC data / not coded / with MCBPC stuffing codewords) per size, from a fresh decoder and after an I picture, in Sorenson and standard mode: decoder A reads the concatenation from one reader, decoder B gets one reader per picture; A, B and the reference decoder must agree after every call and A's reader must end within 8 bits of the end; plus pictures ending in each kind of final syntax element (every TCOEF form incl. each escape width, INTRADC, COD, each MVD shape, after DQUANT, position 63) at every padding length 0..7, alone / before / after another picture; standard-mode pictures that stop early before the next start code (whenever their own reader accepts them the shared reader must too, with the same picture, and the next picture decodes); 80-macroblock pictures ending in every number of not-coded macroblocks, followed by another picture; I, P, I sequences of one-row and one-column pictures for every dimension of the lattice (powers of two and neighbours, 3*2^k, primes, 65520, 65521, 65534, 65535); non-trivial = sequences of two or more pictures"
     ));
     rep.assume("pictures of one sequence share a size (prediction across sizes is outside the valid-stream premise)");
     rep
